@@ -102,8 +102,8 @@ Definition C07_commit_shows_exact_state_full : Prop :=
 (* PARTIAL: it holds when commit's bookkeeping reaches the instances concerned (commit_reaches, Model/Txn.v):
    every reachable parent-side instance that caches a value of a row the transaction changed (i) has its id
    in the transaction's cache at this moment or in _deletedCache [open finding commit_forgets_uncached_row]
-   and (ii) is still handed out by the parent's cache [open finding commit_misses_purged_parent_instance];
-   (iii) it is not flagged expired while caching something -- a state no operation produces any more. *)
+   and (ii) is still handed out by the parent's cache [open finding commit_misses_purged_parent_instance].
+   Nothing else is asked (expire() has no early return on the flag since e94d801 and does not raise since 1aded16). *)
 Theorem C07_commit_shows_exact_state_partial :
   forall (cfg : config) (ops : list op) (close : bool),
     let s := run cfg init ops in
@@ -143,8 +143,7 @@ Definition C07_rollback_erases_full : Prop :=
     forall o, reachable_obj s' Txn o = true -> i_obsolete (get_inst s' Txn o) = false -> no_vals (get_inst s' Txn o) = true.
 
 (* PARTIAL: under rollback_reaches: every reachable undestroyed transaction-side instance that caches something
-   is still handed out by the transaction's cache [open finding rollback_misses_purged_instance] (and is not
-   flagged expired while caching something -- a state no operation produces any more). *)
+   is still handed out by the transaction's cache [open finding rollback_misses_purged_instance]. *)
 Theorem C07_rollback_erases_partial :
   forall (cfg : config) (ops : list op),
     let s := run cfg init ops in
